@@ -428,8 +428,11 @@ def write_evidence(ctx, proof_info, wall):
         "wall_s": round(wall, 2),
         "violations": len(ctx.violations),
     }
-    os.makedirs(os.path.join(VERIF, "evidence"), exist_ok=True)
-    with open(os.path.join(VERIF, "evidence", f"{ctx.prop}.json"), "w") as f:
+    # evidence/ describes runs against /repo itself; a run against a scratch copy (bin/mutcheck sets
+    # D42_REPO) writes its record under .work/ instead
+    evdir = os.path.join(VERIF, "evidence") if os.path.abspath(REPO) == "/repo" else os.path.join(VERIF, ".work", "evidence-scratch")
+    os.makedirs(evdir, exist_ok=True)
+    with open(os.path.join(evdir, f"{ctx.prop}.json"), "w") as f:
         json.dump(ev, f, indent=1, default=str)
         f.write("\n")
 
